@@ -1337,6 +1337,85 @@ static void h_c_get(const char *cmd, cfg_t *cfg)
 	h_buf_free(&b);
 }
 
+/* getv C KIND PATH IDX: the by-name getter cfg_getn<KIND>(cfg, PATH, IDX);
+ * getv0 C KIND PATH: the short form cfg_get<KIND>(cfg, PATH) (for sections: cfg_getsec).
+ * gettsec C PATH TITLE: cfg_gettsec(cfg, PATH, TITLE). */
+static void h_c_getv(const char *cmd, cfg_t *cfg)
+{
+	h_buf b = { 0 };
+
+	if (!strcmp(cmd, "gettsec")) {
+		char *path = h_str(2), *title = h_str(3);
+		cfg_t *r;
+
+		if (h_bad || !path || !title) {
+			h_bad = 1;
+			return;
+		}
+		H_LIB(r = cfg_gettsec(cfg, path, title));
+		if (!r)
+			h_buf_puts(&b, "null");
+		else if (!h_find(cfg, r, &b))
+			h_buf_puts(&b, "?");
+		h_std(cmd, "target=%s", h_buf_str(&b));
+	} else {
+		const char *kind = h_arg(2);
+		char *path = h_str(3);
+		int shortform = !strcmp(cmd, "getv0");	/* getv0 C KIND PATH: cfg_get<KIND>(cfg, PATH) */
+		unsigned int idx = shortform ? 0 : h_uint(4);
+
+		if (h_bad || !path) {
+			h_bad = 1;
+			return;
+		}
+		if (!strcmp(kind, "int")) {
+			long v;
+
+			H_LIB(v = shortform ? cfg_getint(cfg, path) : cfg_getnint(cfg, path, idx));
+			h_buf_printf(&b, "%ld", v);
+		} else if (!strcmp(kind, "flt")) {
+			double v;
+
+			H_LIB(v = shortform ? cfg_getfloat(cfg, path) : cfg_getnfloat(cfg, path, idx));
+			h_buf_bits(&b, v);
+		} else if (!strcmp(kind, "bool")) {
+			cfg_bool_t v;
+
+			H_LIB(v = shortform ? cfg_getbool(cfg, path) : cfg_getnbool(cfg, path, idx));
+			h_buf_printf(&b, "%d", (int)v);
+		} else if (!strcmp(kind, "str")) {
+			char *v;
+
+			H_LIB(v = shortform ? cfg_getstr(cfg, path) : cfg_getnstr(cfg, path, idx));
+			h_buf_hexs(&b, v);
+		} else if (!strcmp(kind, "ptr")) {
+			h_ptrblk *v;
+
+			H_LIB(v = shortform ? cfg_getptr(cfg, path) : cfg_getnptr(cfg, path, idx));
+			if (!v)
+				h_buf_puts(&b, "p0");
+			else if (v->magic != H_PTR_MAGIC)
+				h_buf_puts(&b, "pbad");
+			else
+				h_buf_printf(&b, "p%u", v->id);
+		} else if (!strcmp(kind, "sec")) {
+			cfg_t *v;
+
+			H_LIB(v = shortform ? cfg_getsec(cfg, path) : cfg_getnsec(cfg, path, idx));
+			if (!v)
+				h_buf_puts(&b, "null");
+			else if (!h_find(cfg, v, &b))
+				h_buf_puts(&b, "?");
+		} else {
+			h_bad = 1;
+			h_buf_free(&b);
+			return;
+		}
+		h_std(cmd, "v=%s", h_buf_str(&b));
+	}
+	h_buf_free(&b);
+}
+
 /* setint setfloat setbool setstr */
 static void h_c_set(const char *cmd, cfg_t *cfg)
 {
@@ -1702,7 +1781,7 @@ static const struct h_cmd {
 	{ "searchpath", h_c_parse, 1, 3, 3 }, { "parse_buf", h_c_parse, 1, 3, 3 },
 	{ "parse_file", h_c_parse, 1, 3, 3 }, { "parse_fp", h_c_parse, 1, 3, 3 }, { "parse_fpfail", h_c_parse_fpfail, 1, 3, 3 }, { "errfunc", h_c_errfunc, 1, 3, 3 }, { "lex", h_c_lex, 0, 2, 2 },
 	{ "dump", h_c_dump, 1, 2, 2 }, { "getopt", h_c_get, 1, 3, 3 }, { "getsec", h_c_get, 1, 3, 3 },
-	{ "size", h_c_get, 1, 3, 3 }, { "title", h_c_get, 1, 3, 3 },
+	{ "size", h_c_get, 1, 3, 3 }, { "title", h_c_get, 1, 3, 3 }, { "getv", h_c_getv, 1, 5, 5 }, { "getv0", h_c_getv, 1, 4, 4 }, { "gettsec", h_c_getv, 1, 4, 4 },
 	{ "setint", h_c_set, 1, 5, 5 }, { "setfloat", h_c_set, 1, 5, 5 }, { "setbool", h_c_set, 1, 5, 5 },
 	{ "setstr", h_c_set, 1, 5, 5 }, { "setstr_self", h_c_setself, 1, 5, 5 }, { "setlist", h_c_list, 1, 4, 12 }, { "addlist", h_c_list, 1, 4, 12 },
 	{ "setmulti", h_c_edit, 1, 3, 11 }, { "setopt", h_c_edit, 1, 4, 4 }, { "setcomment", h_c_edit, 1, 4, 4 },
